@@ -39,7 +39,7 @@ func (*fixedLengthCodec) CodecName() string {
 }
 
 func (f *fixedLengthCodec) HandleRead(ctx netty.InboundContext, message netty.Message) {
-	ctx.HandleRead(io.LimitReader(utils.MustToReader(message), int64(f.length)))
+	ctx.HandleRead(utils.ExactReader(io.LimitReader(utils.MustToReader(message), int64(f.length)), int64(f.length)))
 }
 
 func (f *fixedLengthCodec) HandleWrite(ctx netty.OutboundContext, message netty.Message) {
